@@ -45,7 +45,7 @@ for l in log:
 fixes='| commit | defect repaired | property | obligations that failed before |\n|---|---|---|---|\n'+'\n'.join(fl)
 
 # seeded changes
-s=['| seeded change | property | what it does | caught by (check: first violated obligation) | first missed? |','|---|---|---|---|---|']
+s=['| seeded change | property | what it does | caught by (check: first violated obligation) | first missed? / not detected |','|---|---|---|---|---|']
 for d in sorted(glob.glob(f'{R}/seeded/*/meta.json')):
     m=json.load(open(d)); n=os.path.basename(os.path.dirname(d))
     notes=m.get('agent_notes','')
